@@ -10,6 +10,13 @@ that were removed from a container and may be re-inserted anywhere.  After EVERY
 rejected one) the adaptor reads, first, `container.identifiers` of every container and, then, the
 identifiers carried by the objects that are in it.
 
+Round 3 additions: the whole life cycle of SHALLOW glyphs (contours read from a GLIF and not looked at yet).  The
+adaptor no longer looks at the contours of a shallow glyph before a call (it used to list them in order to know what
+the call removes: that listing was the first touch, never the call); every operation that affects identifiers is
+exercised as the first touch of a shallow glyph - as its target and as its source -, the model knows which calls
+load the contours and when (`preload`, `penEnd`), the load state is compared after every operation, and every case
+that runs on a shallow glyph is run a second time on a fully loaded twin (`twin_oracle`).
+
 Round 2 additions: calls the container has to refuse (removePoint / remove<Kind> with an object that is not in it,
 the strangers being real Point / Contour / ... objects the history produced: replaced by reverse(), removed, owned by
 a sibling or by another container; anchor / guideline dicts with an identifier and an invalid colour), and re-opened
@@ -30,7 +37,7 @@ from sexp import Atom, opt
 MODEL = "ident"
 SHRINKABLE = True
 RULE = ("op sequences over 3 glyphs (in a font, or stand-alone) + font guidelines + a limbo of removed objects; "
-        "identifiers drawn from a pool of 6 on a random subset of objects (high collision rate); 60 op kinds: "
+        "identifiers drawn from a pool of 6 on a random subset of objects (high collision rate); 62 op kinds: "
         "insert/re-insert/remove/clear of contours, components, anchors, guidelines; point insert/remove; "
         "Contour.clear/reverse/removeSegment/split/setStartPoint; identifier setters and generateIdentifier* with "
         "scripted candidates; insertions during which an observer of the container's *WillBeAdded notification gives "
@@ -44,8 +51,18 @@ RULE = ("op sequences over 3 glyphs (in a font, or stand-alone) + font guideline
         "AND an invalid colour through insert / append / instantiate / the anchors / guidelines setters; "
         "plus every point-type pattern up to length 4 (sampled: 5) x every point-list edit; plus directed families "
         "(stale point after each point-list edit, strangers carrying an identifier in use, first guideline call on an "
-        "unread font, calls on glyphs whose contours are still shallow loaded - lazily loaded contours are observed as "
-        "the records they are instead of being deepened after every operation); plus the "
+        "unread font); plus the life cycle of shallow glyphs (a UFO is opened; a few calls that do not look at contours, "
+        "with identifiers colliding with those the shallow records reserve; then a call that is the FIRST to touch the "
+        "shallow contours: clear, clearContours, setDataFromSerialization over / from it, copyDataFromGlyph from / into "
+        "it, drawPoints from it, drawing into it with and without skipConflictingIdentifiers, appendContour, "
+        "insertContour at an index, re-insertion of a removed contour, removeContour / removePoint with a stranger, "
+        "every call that names a contour by index, decomposeComponent(s) of a component whose base is shallow / into a "
+        "shallow glyph, Layer.reloadGlyphs, Layer.insertGlyph of it in the same layer / through another layer / "
+        "through another font, len(glyph); then calls that ask for the released / reserved identifiers again); "
+        "lazily loaded contours are observed as the records they are, the load state of every glyph is part of the "
+        "comparison, and every case that runs on a shallow glyph is run again on a twin world in which every glyph is "
+        "fully loaded after every operation (same outcome, registries and identifiers in use required); a third of "
+        "the shallow cases a second time with an explicit read access to every glyph after every operation; plus the "
         "corpus of regression/witness histories; non-trivial = at least one successful registry-changing op AND at "
         "least one rejected duplicate or generated identifier; distinct = distinct op lists")
 ASSUMPTIONS = [
@@ -69,7 +86,10 @@ ASSUMPTIONS = [
     "from the first guideline call on; Font.appendGuideline is not used on an unread font (it computes the index "
     "before the lazy read and inserts at 0: an ordering matter, not C10's)",
     "while a glyph's contours are shallow loaded the contours and the identifiers they carry are read off the shallow "
-    "records (Glyph._shallowLoadedContours, a private attribute: every public way to look at contours deepens them)",
+    "records (Glyph._shallowLoadedContours, a private attribute: every public way to look at contours deepens them); "
+    "the loaded-twin comparison uses public API only (len(glyph) to load, glyph.identifiers, the objects' identifiers)",
+    "the Contour objects a call makes and removes while it loads a shallow glyph (clear, clearContours, "
+    "setDataFromSerialization, reloadGlyphs as the first touch) are collected from Glyph.ContourWillBeDeleted",
     "Contour.reverse is exercised on contours fontTools' PointToSegmentPen can draw before and after the reversal "
     "(reverse reads Contour.clockwise twice; on other contours that raises PenError or not depending on the cached "
     "area representation, which is C03's subject); the probe uses fontTools itself",
@@ -236,6 +256,40 @@ class _Collector(object):
         self.objs.append(notification.data["object"])
 
 
+class _Removal(object):
+
+    def __init__(self, world, t, kinds):
+        self.w, self.t, self.kinds = world, t, kinds
+
+    def __enter__(self):
+        w, t = self.w, self.t
+        self.col = None
+        self.olds = {}
+        for kind in self.kinds:
+            if kind == 0 and w.shallow(t):
+                self.col = _Collector()
+                w.keep.append(self.col)
+                w.glyphs[t].addObserver(self.col, "cb", "Glyph.ContourWillBeDeleted")
+                self.glyph = w.glyphs[t]
+            else:
+                self.olds[kind] = w.children(t, kind)
+        return self
+
+    def __exit__(self, *exc):
+        w, t = self.w, self.t
+        for kind in self.kinds:
+            if kind not in self.olds:
+                self.glyph.removeObserver(self.col, "Glyph.ContourWillBeDeleted")
+                for o in self.col.objs:
+                    w.to_limbo(0, o)
+                continue
+            now = w.children_now(t, kind)
+            for o in reversed(self.olds[kind]):
+                if not any(o is x for x in now):
+                    w.to_limbo(kind, o)
+        return False
+
+
 def gen_refused(rng):
     """calls the container has to refuse without touching anything (the last two: composites cut short)"""
     t = rng.randrange(NGLYPH)
@@ -264,9 +318,25 @@ def gen_refused(rng):
     return ["setGuidesBad", tg, vs, _pid(rng, 0.15), tail, rng.randrange(len(BAD_COLORS))]
 
 
+def gen_reopen(rng):
+    fg = rng.sample(POOL, rng.randint(0, 2))
+    return ["reopen", [gen_unique_data(rng, i) for i in range(NGLYPH)],
+            [i if rng.random() < 0.6 else None for i in fg],
+            [rng.randrange(NGLYPH), rng.choice(POOL)] if rng.random() < 0.5 else None,
+            rng.random() < 0.5]
+
+
 def gen_op(rng, standalone, fresh, can_disk):
     if rng.random() < 0.07:
         return gen_refused(rng)
+    # round 3: read accesses, the copy through another font / layer, and more re-opened (shallow) worlds
+    if rng.random() < 0.015:
+        return ["load", rng.randrange(NGLYPH), rng.randrange(5)]
+    if not standalone and rng.random() < 0.008:
+        t = rng.randrange(NGLYPH - 1)
+        return ["insertGlyphVia", t, rng.randrange(t + 1, NGLYPH), rng.random() < 0.5]
+    if can_disk and rng.random() < 0.012:
+        return gen_reopen(rng)
     r = rng.random()
     if not standalone and r < 0.04:
         return gen_tagged(rng)
@@ -519,67 +589,154 @@ def gen_stranger_cases(rng, tier):
         yield dict(ops=ops, standalone=rng.random() < 0.3)
 
 
+def _quiet_op(rng, t, ident):
+    """a call on glyph `t` that does not look at its contours"""
+    r = rng.random()
+    if r < 0.16:
+        return ["insAnchor", t, rng.randrange(4), ident(), rng.random() < 0.5]
+    if r < 0.28:
+        return ["insGuide", t, rng.randrange(4), ident(), rng.random() < 0.5]
+    if r < 0.38:
+        return ["insComp", t, rng.randrange(4), rng.choice([b for b in range(t + 1, NGLYPH)] + [MISSING]), ident()]
+    if r < 0.45:
+        return ["setAnchors", t, [ident() for _ in range(rng.randint(0, 3))]]
+    if r < 0.52:
+        return ["setGuides", t, [ident() for _ in range(rng.randint(0, 3))]]
+    if r < 0.60:
+        return ["genAnchorId", t, rng.randrange(4), [ident() or 0, ident() or 1, 901]]
+    if r < 0.68:
+        return ["setCompId", t, rng.randrange(4), ident()]
+    if r < 0.74:
+        return ["insAnchorBad", t, rng.randrange(4), ident(), rng.randrange(3), rng.randrange(len(BAD_COLORS))]
+    if r < 0.80:
+        return ["rmAnchor", t, rng.randrange(4)]
+    if r < 0.86:
+        return ["clearGuides", t]
+    if r < 0.93:
+        return ["instAnchor", t, ident()]
+    return ["rmComp", t, rng.randrange(4)]
+
+
+def _first_touch_op(rng, t, datas, ident):
+    """a call that can be the FIRST thing to touch the shallow contours of glyph `t` - as the glyph it works on, or
+    as the glyph it reads from"""
+    lower = [u for u in range(NGLYPH) if u < t]
+    higher = [u for u in range(NGLYPH) if u > t]
+    stored = datas[t]["contours"]
+
+    def contour():
+        # an incoming contour: a stored one (the whole outline collides), or one with colliding / free identifiers
+        if stored and rng.random() < 0.4:
+            cid, pts = rng.choice(stored)
+            return [cid, [list(q) for q in pts]]
+        return [ident() if rng.random() < 0.6 else None,
+                [[ty, ident() if rng.random() < 0.5 else None] for ty in rng.choice([[2, 2, 2], [1, 2, 2], [3, 2, 0, 0]])]]
+    choices = [
+        lambda: ["clearGlyph", t], lambda: ["clearContours", t], lambda: ["clearContours", t],
+        lambda: ["roundtrip", t], lambda: ["roundtrip", t],
+        lambda: ["draw", t, [contour() for _ in range(rng.randint(1, 2))], [], False],
+        lambda: ["draw", t, [contour() for _ in range(rng.randint(1, 2))], [], True],
+        lambda: ["draw", t, [], [[MISSING, ident()]], rng.random() < 0.5],
+        lambda: ["insContour", t, rng.randrange(4)] + contour(),
+        lambda: ["insContour", t, 99] + contour(),
+        lambda: ["reinsContour", t, rng.randrange(4), rng.randrange(4)],
+        lambda: ["rmAbsent", 0, t, rng.randrange(4)], lambda: ["rmAbsent", 0, t, rng.randrange(4)],
+        lambda: ["load", t, rng.randrange(5)], lambda: ["rmContour", t, rng.randrange(4)], lambda: ["reverse", t, rng.randrange(4)],
+        lambda: ["genPointId", t, rng.randrange(4), rng.randrange(4), [ident() or 0, 902]],
+        lambda: ["insPoint", t, rng.randrange(4), rng.randrange(4), 2, ident()],
+        lambda: ["setContourId", t, rng.randrange(4), ident()],
+        lambda: ["rmAbsentPoint", t, rng.randrange(4), rng.randrange(5), rng.randrange(12), ident() or 0],
+        lambda: ["decompose", t, rng.randrange(4)], lambda: ["decomposeAll", t],
+        lambda: ["reload", t, gen_unique_data(rng, t)],
+        lambda: ["tagged", ident() or 0, ["insContour", t, rng.randrange(4), None, [[2, None], [2, ident()]]]],
+    ]
+    if higher:
+        choices += [
+            lambda: ["deserializeFrom", t, rng.choice(higher)], lambda: ["copyFrom", t, rng.choice(higher)],
+            lambda: ["copyFrom", t, rng.choice(higher)], lambda: ["copyFrom", t, rng.choice(higher)],
+            lambda: ["drawFrom", t, rng.choice(higher), rng.random() < 0.5],
+            lambda: ["drawFrom", t, rng.choice(higher), False], lambda: ["drawFrom", t, rng.choice(higher), True],
+            lambda: ["rmForeign", 0, t, rng.choice(higher), rng.randrange(4)],
+        ]
+    if lower:
+        # glyph `t` is the one that is read: drawn into / copied into / deserialised into / inserted as another
+        # glyph, decomposed into a glyph that references it
+        choices += [
+            lambda: ["deserializeFrom", rng.choice(lower), t], lambda: ["deserializeFrom", rng.choice(lower), t],
+            lambda: ["copyFrom", rng.choice(lower), t], lambda: ["copyFrom", rng.choice(lower), t],
+            lambda: ["drawFrom", rng.choice(lower), t, False], lambda: ["drawFrom", rng.choice(lower), t, True],
+            lambda: ["insertGlyph", rng.choice(lower), t], lambda: ["insertGlyphVia", rng.choice(lower), t, False],
+            lambda: ["insertGlyphVia", rng.choice(lower), t, True],
+            lambda: ["decompose", rng.choice(lower), rng.randrange(4)], lambda: ["decomposeAll", rng.choice(lower)],
+            lambda: ["rmForeign", 0, rng.choice(lower), t, rng.randrange(4)],
+        ]
+    return rng.choice(choices)()
+
+
 def gen_shallow_cases(rng, tier):
     """a UFO is opened: the glyphs hold their contours in the lazily loaded (shallow) form until something looks at
-    them.  Histories of calls that do NOT look at contours (anchors, guidelines, components, (de)serialisation,
-    drawing into / from, copying, reloading), with identifiers that collide with those of the shallow contours and
-    points; then calls that deepen them"""
-    n = 80 if tier == "quick" else 800
+    them.  A few calls that do NOT look at contours (with identifiers that collide with those reserved by the
+    shallow contours and points), then a call that is the first to touch the shallow contours - any of the calls
+    that load them, replace them, or read them as a source -, then calls that ask for the identifiers again (the
+    stored outline is drawn / inserted once more, anchors take the stored identifiers, the glyph is cleared, loaded,
+    round-tripped).  Every case is also run on the fully loaded twin (see `twin_oracle`), and a third of them a second
+    time with an explicit `load` of every glyph after every operation (the twin, through the model)."""
+    n = 200 if tier == "quick" else 2400
     for _ in range(n):
         while True:
             datas = [gen_unique_data(rng, i) for i in range(NGLYPH)]
             if any(pid is not None for d in datas for c in d["contours"] for pid in [c[0]] + [q[1] for q in c[1]]):
                 break
+        for u in range(NGLYPH - 1):
+            if rng.random() < 0.45:
+                # a component whose base glyph will be shallow
+                datas[u]["comps"].append([rng.randrange(u + 1, NGLYPH), None])
         stored = [sorted(_ids_of_data_raw(d)) for d in datas]
+        then = None
+        if rng.random() < 0.2:
+            tt = rng.randrange(NGLYPH)
+            then = [tt, rng.choice(stored[tt]) if stored[tt] and rng.random() < 0.6 else rng.choice(POOL)]
         ops = [["reopen", datas, [i if rng.random() < 0.6 else None for i in rng.sample(POOL, rng.randint(0, 2))],
-                None, rng.random() < 0.5]]
-        for _ in range(rng.randint(2, 6)):
-            t = rng.randrange(NGLYPH)
+                then, rng.random() < 0.5]]
+        with_outline = [i for i in range(NGLYPH) if datas[i]["contours"]]
+        for _round in range(rng.randint(1, 3)):
+            t = rng.choice(with_outline) if rng.random() < 0.85 else rng.randrange(NGLYPH)
 
-            def ident():
-                if stored[t] and rng.random() < 0.6:
+            def ident(t=t):
+                if stored[t] and rng.random() < 0.65:
                     return rng.choice(stored[t])
                 return _pid(rng, 0.2)
-            r = rng.random()
-            if r < 0.14:
-                ops.append(["insAnchor", t, rng.randrange(4), ident(), rng.random() < 0.5])
-            elif r < 0.24:
-                ops.append(["insGuide", t, rng.randrange(4), ident(), rng.random() < 0.5])
-            elif r < 0.32:
-                ops.append(["insComp", t, rng.randrange(4), rng.choice([b for b in range(t + 1, NGLYPH)] + [MISSING]), ident()])
-            elif r < 0.38:
-                ops.append(["setAnchors", t, [ident() for _ in range(rng.randint(0, 3))]])
-            elif r < 0.44:
-                ops.append(["setGuides", t, [ident() for _ in range(rng.randint(0, 3))]])
-            elif r < 0.56:
-                ops.append(["roundtrip", t])
-            elif r < 0.66 and t < NGLYPH - 1:
-                ops.append(["deserializeFrom", t, rng.randrange(t + 1, NGLYPH)])
-            elif r < 0.72 and t < NGLYPH - 1:
-                ops.append(["drawFrom", t, rng.randrange(t + 1, NGLYPH), rng.random() < 0.5])
-            elif r < 0.77 and t < NGLYPH - 1:
-                ops.append(["copyFrom", t, rng.randrange(t + 1, NGLYPH)])
-            elif r < 0.80 and t < NGLYPH - 1:
-                ops.append(["insertGlyph", t, rng.randrange(t + 1, NGLYPH)])
-            elif r < 0.84:
-                ops.append(["genAnchorId", t, rng.randrange(4), [ident() or 0, ident() or 1, 901]])
-            elif r < 0.88:
-                ops.append(["setCompId", t, rng.randrange(4), ident()])
-            elif r < 0.91:
-                ops.append(["decompose", t, rng.randrange(4)])
-            elif r < 0.94:
-                ops.append(["insAnchorBad", t, rng.randrange(4), ident(), rng.randrange(3), rng.randrange(len(BAD_COLORS))])
-            elif r < 0.97:
-                ops.append(["reload", t, gen_unique_data(rng, t)])
-            else:
-                ops.append(["draw", t, [gen_contour(rng)], [], rng.random() < 0.4])
-        for _ in range(rng.randint(1, 2)):
-            t = rng.randrange(NGLYPH)
-            ops.append(rng.choice([["rmContour", t, rng.randrange(4)], ["reverse", t, rng.randrange(4)],
-                                   ["insContour", t, rng.randrange(4)] + gen_contour(rng),
-                                   ["genPointId", t, rng.randrange(4), rng.randrange(4), [rng.choice(POOL), 902]],
-                                   ["clearGlyph", t]]))
-        yield dict(ops=ops, standalone=False)
+            if rng.random() < 0.45:
+                # something for the limbo (taken from ANOTHER glyph, which that loads)
+                u = rng.choice([x for x in range(NGLYPH) if x != t])
+                ops.append(["rmContour", u, rng.randrange(4)])
+            for _ in range(rng.randint(0, 3)):
+                ops.append(_quiet_op(rng, t, ident))
+            ops.append(_first_touch_op(rng, t, datas, ident))
+            for _ in range(rng.randint(1, 3)):
+                r = rng.random()
+                if r < 0.25 and datas[t]["contours"]:
+                    ops.append(["draw", t, [[c[0], [list(q) for q in c[1]]] for c in datas[t]["contours"]], [],
+                                rng.random() < 0.25])
+                elif r < 0.40 and datas[t]["contours"]:
+                    c = rng.choice(datas[t]["contours"])
+                    ops.append(["insContour", t, rng.randrange(4), c[0], [list(q) for q in c[1]]])
+                elif r < 0.60:
+                    ops.append(_quiet_op(rng, t, ident))
+                elif r < 0.80:
+                    ops.append(_first_touch_op(rng, t, datas, ident))
+                elif r < 0.90:
+                    ops.append(["reinsContour", rng.randrange(NGLYPH), rng.randrange(4), rng.randrange(4)])
+                else:
+                    ops.append(["load", rng.randrange(NGLYPH), rng.randrange(5)])
+        case = dict(ops=ops, standalone=False)
+        yield case
+        if rng.random() < 0.34:
+            loaded = []
+            for op in ops:
+                loaded.append(op)
+                loaded.extend(["load", i] for i in range(NGLYPH))
+            yield dict(ops=loaded, standalone=False)
 
 
 def _ids_of_data_raw(d):
@@ -748,8 +905,10 @@ def enc_op(op):
         return [A, op[1], [_enc_contour(c) for c in op[2]], [[b, opt(i)] for b, i in op[3]], bool(op[4])]
     if k == "drawFrom":
         return [A, op[1], op[2], bool(op[3])]
-    if k in ("copyFrom", "insertGlyph", "deserializeFrom"):
+    if k in ("copyFrom", "insertGlyph", "deserializeFrom", "insertGlyphVia"):
         return [A, op[1], op[2]]
+    if k == "load":
+        return [A, op[1]]
     if k == "fontRoundtrip":
         return [A]
     if k in ("instAnchor", "instGuide"):
@@ -806,8 +965,9 @@ def _err(e):
 
 class World(object):
 
-    def __init__(self, standalone, uses_disk=False):
+    def __init__(self, standalone, uses_disk=False, twin=False):
         import defcon
+        self.twin = twin        # the fully loaded twin: every glyph's contours are looked at after every operation
         import defcon.tools.identifiers as identmod
         self.defcon = defcon
         self.rand = _ScriptedRandom()
@@ -836,6 +996,9 @@ class World(object):
         self.unread = None      # identifiers of the guidelines in fontinfo.plist while the re-opened font is unread
         self.unread_first = 0   # guideline calls that were the first thing to touch an unread font
         self.on_shallow = 0     # calls on a glyph whose contours were still shallow loaded
+        self.src_shallow = {}   # calls that read a glyph whose contours were still shallow as their SOURCE
+        self.first_touch = {}   # ... by operation kind, when the call also was what loaded them (or replaced them)
+        self.extra_viol = []
         if uses_disk and not standalone:
             self.disk()         # saved while the glyphs are still empty
 
@@ -890,6 +1053,12 @@ class World(object):
         Point objects yet.  Read off the private attribute: every public way to look at contours deepens them."""
         return t != FONT and bool(self.glyphs[t]._shallowLoadedContours)
 
+    def ncontours(self, t):
+        """number of contours of glyph `t`, without looking at them while they are shallow"""
+        if self.shallow(t):
+            return len(self.glyphs[t]._shallowLoadedContours)
+        return len(self.glyphs[t])
+
     def children_now(self, t, kind):
         """the children after a call, for the limbo bookkeeping: the contours of a glyph that is (again) shallow
         are new records, none of them is an object that existed before the call - and must not be deepened by
@@ -930,14 +1099,16 @@ class World(object):
                 for o in col.objs:
                     self.to_limbo(kind, o)
             return
-        old = self.children(t, kind)
-        try:
+        with self.removal(t, [kind]):
             call()
-        finally:
-            now = self.children_now(t, kind)
-            for o in reversed(old):
-                if not any(o is x for x in now):
-                    self.to_limbo(kind, o)
+
+    def removal(self, t, kinds):
+        """context: the objects of `kinds` that the enclosed call removes from container `t` go to the limbo, in
+        removal order.  The children are listed before and after the call - except the contours of a glyph that is
+        still shallow: listing them would be the read access that loads them, and the call is meant to be the first
+        thing that touches them.  The Contour objects such a call makes and removes are collected from the glyph's
+        `Glyph.ContourWillBeDeleted` notifications instead."""
+        return _Removal(self, t, kinds)
 
     def note_stale(self, before, contour):
         now = list(contour)
@@ -951,6 +1122,19 @@ class World(object):
         if ident is not None:
             d["identifier"] = id2s(ident)
         return d
+
+    def check_extra(self, glyph, site):
+        """a glyph outside the world (the copy `Layer.insertGlyph` made in another font): the property's first two
+        clauses, on the spot"""
+        carried = []
+        for c in glyph:
+            carried.append(c.identifier)
+            carried.extend(p.identifier for p in c)
+        for group in (glyph.components, glyph.anchors, glyph.guidelines):
+            carried.extend(o.identifier for o in group)
+        carried = [i for i in carried if i is not None]
+        if len(carried) != len(set(carried)) or set(carried) != set(glyph.identifiers):
+            self.extra_viol.append(dict(site=site, carried=sorted(carried), registry=sorted(glyph.identifiers)))
 
     def disk(self):
         """the font lives in a UFO from the first disk op on"""
@@ -1012,7 +1196,8 @@ class World(object):
             for a in g.guidelines:
                 carried.append((id(a), a.identifier))
                 guides.append(opt(s2id(a.identifier)))
-            out.append([[Atom("set")] + regs[t], contours, comps, anchors, guides])
+            out.append([[Atom("set")] + regs[t], contours, comps, anchors, guides,
+                        Atom("shallow" if records else "loaded")])
             snap.append(dict(reg=regs_raw[t], carried=carried, obj=id(g), unread=bool(records)))
         fg = []
         carried = []
@@ -1045,8 +1230,22 @@ class World(object):
         if isinstance(t, int) and t < NGLYPH and inner[0] not in ("limboSetId", "limboGenId", "limboAddPoint", "reopen") \
                 and self.shallow(t):
             self.on_shallow += 1
+            was_shallow = self.glyphs[t]
+        else:
+            was_shallow = None
+        if inner[0] in ("drawFrom", "copyFrom", "insertGlyph", "insertGlyphVia", "deserializeFrom") and self.shallow(inner[2]):
+            self.src_shallow[inner[0]] = self.src_shallow.get(inner[0], 0) + 1
+        if inner[0] in ("decompose", "decomposeAll") and any(self.shallow(b) for b in range(inner[1] + 1, NGLYPH)):
+            self.src_shallow[inner[0]] = self.src_shallow.get(inner[0], 0) + 1
         try:
-            res = self._do(op)
+            try:
+                res = self._do(op)
+            finally:
+                if was_shallow is not None and (not was_shallow._shallowLoadedContours
+                                                or inner[0] in ("roundtrip", "deserializeFrom")):
+                    # (a glyph that is fed a serialisation is cleared first - that loads it -, and may be shallow
+                    # again afterwards)
+                    self.first_touch[inner[0]] = self.first_touch.get(inner[0], 0) + 1
             if res is None:
                 res = Atom("ok")
         except AssertionError as e:
@@ -1088,7 +1287,14 @@ class World(object):
         if k == "insContour":
             g = self.glyphs[op[1]]
             c = self.new_contour(op[3], op[4])
-            g.insertContour(op[2] % (len(g) + 1), c)
+            # (the number of contours is taken without looking at them: the call itself is to be the first touch of
+            # a shallow glyph - `assert contour not in self` for insertContour, `len(self)` for appendContour)
+            n = self.ncontours(op[1])
+            idx = op[2] % (n + 1)
+            if idx == n and op[2] % 2 == 0:
+                g.appendContour(c)
+            else:
+                g.insertContour(idx, c)
             return
         if k in ("reinsContour", "reinsComp", "reinsAnchor", "reinsGuide"):
             kind = ["reinsContour", "reinsComp", "reinsAnchor", "reinsGuide"].index(k)
@@ -1104,7 +1310,7 @@ class World(object):
                     return [Atom("err"), Atom("Cyclic")]    # would make the component graph cyclic
             if op[1] == FONT and self.font_unread():
                 self.unread_first += 1
-            n = self.nchildren(op[1], kind)
+            n = self.ncontours(op[1]) if kind == 0 else self.nchildren(op[1], kind)
             idx = op[2] % (n + 1)
             if kind == 0:
                 c.insertContour(idx, obj)
@@ -1141,11 +1347,8 @@ class World(object):
             return
         if k == "clearGlyph":
             g = self.glyphs[op[1]]
-            chs = [self.children(op[1], kind) for kind in range(4)]
-            g.clear()
-            for kind in range(4):
-                for obj in reversed(chs[kind]):
-                    self.to_limbo(kind, obj)
+            with self.removal(op[1], [0, 1, 2, 3]):
+                g.clear()
             return
         if k in ("insPoint", "addPoint", "rmPoint", "clearContour", "reverse", "rmSegment", "split", "setStart",
                  "setContourId", "genContourId", "genPointId"):
@@ -1172,7 +1375,9 @@ class World(object):
             elif how == 1:
                 cands = [q for c2 in g if c2 is not c for q in c2]
             elif how == 2:
-                cands = [q for g2 in self.glyphs if g2 is not g for c2 in g2 for q in c2]
+                # (glyphs whose contours are still shallow have no Point objects to offer; looking would load them)
+                cands = [q for t2, g2 in enumerate(self.glyphs) if g2 is not g and not self.shallow(t2)
+                         for c2 in g2 for q in c2]
             elif how == 3:
                 cands = [q for c2 in self.limbo[0] for q in c2]
             else:
@@ -1464,15 +1669,8 @@ class World(object):
             src = g if k == "roundtrip" else self.glyphs[op[2]]
             data = src.getDataForSerialization()
             data.pop("name", None)
-            chs = [self.children(op[1], kind) for kind in range(4)]
-            try:
+            with self.removal(op[1], [0, 1, 2, 3]):
                 g.setDataFromSerialization(data)
-            finally:
-                for kind in range(4):
-                    now = self.children_now(op[1], kind)
-                    for o in reversed(chs[kind]):
-                        if not any(o is x for x in now):
-                            self.to_limbo(kind, o)
             return
         if k == "fontRoundtrip":
             old = self.font.guidelines
@@ -1499,21 +1697,61 @@ class World(object):
                 o = cont.instantiateGuideline(d)
             self.keep.append(o)
             return
+        if k == "load":
+            # a read access to the contours, nothing else: any of the public ways to look at them
+            g = self.glyphs[op[1]]
+            how = op[2] % 5 if len(op) > 2 else 0
+            if how == 0:
+                len(g)
+            elif how == 1:
+                for _contour in g:
+                    pass
+            elif how == 2:
+                try:
+                    g[0]
+                except IndexError:
+                    pass
+            elif how == 3:
+                stranger = D.Contour()
+                self.keep.append(stranger)
+                assert stranger not in g
+            else:
+                stranger = D.Contour()
+                self.keep.append(stranger)
+                try:
+                    g.contourIndex(stranger)
+                except ValueError:
+                    pass
+            return
+        if k == "insertGlyphVia":
+            # the glyph is inserted into a layer of ANOTHER font (or, `op[3]`, into another layer of its own font);
+            # the copy made there is what comes back
+            if len(op) > 3 and op[3]:
+                if "c10.other" not in self.font.layers.layerOrder:
+                    self.font.newLayer("c10.other")
+                elsewhere = self.font.layers["c10.other"]
+            else:
+                other = D.Font()
+                self.keep.append(other)
+                elsewhere = other.layers.defaultLayer
+            there = elsewhere.insertGlyph(self.glyphs[op[2]], name="G%d" % op[1])
+            self.keep.append(there)
+            self.check_extra(there, "insertGlyphVia")
+            layer = self.font.layers.defaultLayer
+            try:
+                layer.insertGlyph(there, name="G%d" % op[1])
+            finally:
+                self.glyphs[op[1]] = layer["G%d" % op[1]]
+                self.keep.append(self.glyphs[op[1]])
+            return
         if k == "reload":
             if self.standalone:
                 return EMPTY
             self.disk()
             t = op[1]
             self._write_glif(self.path, t, op[2])
-            chs = [self.children(t, kind) for kind in range(4)]
-            try:
+            with self.removal(t, [0, 1, 2, 3]):
                 self.font.layers.defaultLayer.reloadGlyphs(["G%d" % t])
-            finally:
-                for kind in range(4):
-                    now = self.children_now(t, kind)
-                    for o in reversed(chs[kind]):
-                        if not any(o is x for x in now):
-                            self.to_limbo(kind, o)
             return
         if k == "reopen":
             if self.standalone:
@@ -1600,7 +1838,7 @@ IDENT_OPS = set("""insContour reinsContour rmContour clearContours insPoint addP
 setContourId genContourId genPointId insComp reinsComp rmComp clearComps setCompId genCompId decompose decomposeAll
 insAnchor reinsAnchor rmAnchor clearAnchors setAnchorId genAnchorId setAnchors insGuide reinsGuide rmGuide clearGuides
 setGuideId genGuideId setGuides clearGlyph draw drawFrom copyFrom insertGlyph roundtrip deserializeFrom fontRoundtrip
-reload reopen reverse setAnchorsBad setGuidesBad""".split())
+reload reopen reverse setAnchorsBad setGuidesBad insertGlyphVia""".split())
 
 # operations that introduce ONE object / ONE identifier: a rejection must leave every container unchanged
 PRIMITIVE = set("""insContour reinsContour insPoint addPoint setContourId genContourId genPointId insComp reinsComp
@@ -1613,11 +1851,8 @@ instAnchor instGuide split""".split())
 LEAKY = set("draw drawFrom copyFrom deserializeFrom reload".split())
 
 
-def run_impl(case):
-    warnings.filterwarnings("ignore")
-    if case.get("scripted"):
-        return run_scripted(case)
-    w = World(bool(case.get("standalone")), any(op[0] in ("reload", "reopen") for op in case["ops"]))
+def _run_world(case, twin):
+    w = World(bool(case.get("standalone")), any(op[0] in ("reload", "reopen") for op in case["ops"]), twin=twin)
     outs = []
     trace = []
     try:
@@ -1625,16 +1860,68 @@ def run_impl(case):
         for op in case["ops"]:
             before = snap
             n_gen = len(w.gen_checks)
+            n_extra = len(w.extra_viol)
             res = w.do(op)
+            if twin:
+                # the fully loaded twin: every glyph's contours are looked at (public API) after every operation
+                for g in w.glyphs:
+                    len(g)
             obs, snap = w.observe()
             outs.append([res, obs])
             trace.append(dict(op=effective(op), res=res, before=before, after=snap, gen=w.gen_checks[n_gen:],
-                              tagged=op[0] == "tagged"))
-        unread_first = w.unread_first
-        on_shallow = w.on_shallow
+                              tagged=op[0] == "tagged", extra=w.extra_viol[n_extra:]))
+        counters = dict(unread_first=w.unread_first, on_shallow=w.on_shallow, first_touch=dict(w.first_touch),
+                        src_shallow=dict(w.src_shallow))
     finally:
         w.close()
+    return outs, trace, counters
+
+
+def twin_oracle(trace, twin_trace):
+    """A glyph whose contours are still shallow has no Contour / Point objects yet: "the identifiers carried by the
+    objects currently in it" are those of the objects that loading makes.  The same history is run on a twin world
+    in which every glyph is fully loaded (by `len(glyph)`, public API) after every operation; after every step the
+    registry of each container, the identifiers carried in it, and whether the call was rejected must be the same
+    in both worlds.  (The twin's own trace goes through the ordinary oracle as well.)"""
+    viol = []
+    for step, (a, b) in enumerate(zip(trace, twin_trace)):
+        kind = a["op"][0]
+
+        def hit(site, **kw):
+            viol.append(dict(clause="C10/registry-exact", signature="C10/registry-exact/shallow-vs-loaded/%s/%s" % (site, kind),
+                             step=step, op=a["op"], **kw))
+        fa = isinstance(a["res"], list) and bool(a["res"]) and a["res"][0] == "err"
+        fb = isinstance(b["res"], list) and bool(b["res"]) and b["res"][0] == "err"
+        if fa != fb or (fa and str(a["res"][1]) != str(b["res"][1])):
+            hit("outcome", shallow=str(a["res"]), loaded=str(b["res"]))
+            return viol
+        for t, (sa, sb) in enumerate(zip(a["after"], b["after"])):
+            if sorted(sa["reg"]) != sorted(sb["reg"]):
+                hit("registry", container=t, shallow=sorted(sa["reg"]), loaded=sorted(sb["reg"]))
+                return viol
+            ca = sorted(i for (_, i) in sa["carried"] if i is not None)
+            cb = sorted(i for (_, i) in sb["carried"] if i is not None)
+            if ca != cb:
+                hit("carried", container=t, shallow=ca, loaded=cb)
+                return viol
+    return viol
+
+
+def run_impl(case):
+    warnings.filterwarnings("ignore")
+    if case.get("scripted"):
+        return run_scripted(case)
+    outs, trace, counters = _run_world(case, False)
+    unread_first = counters["unread_first"]
+    on_shallow = counters["on_shallow"]
     viol = oracle(case, trace)
+    twinned = False
+    if not case.get("standalone") and on_shallow and not case.get("no_twin"):
+        twinned = True
+        _, twin_trace, _ = _run_world(case, True)
+        viol += twin_oracle(trace, twin_trace)
+        seen = set(v["signature"] for v in viol)
+        viol += [dict(v, twin=True) for v in oracle(case, twin_trace) if v["signature"] not in seen]
     kinds = {}
     changed = rejected = generated = 0
     for tr in trace:
@@ -1657,6 +1944,12 @@ def run_impl(case):
         kinds["first-guideline-call-on-unread-font"] = unread_first
     if on_shallow:
         kinds["calls-on-shallow-glyph"] = on_shallow
+    for k2, n in counters["first_touch"].items():
+        kinds["first-touch-of-shallow-glyph." + k2] = n
+    for k2, n in counters["src_shallow"].items():
+        kinds["shallow-source." + k2] = n
+    if twinned:
+        kinds["cases.compared-with-loaded-twin"] = 1
     refused = sum(1 for tr in trace if tr["op"][0] in REFUSED and isinstance(tr["res"], list) and tr["res"]
                   and tr["res"][0] == "err" and str(tr["res"][1]) != "Empty")
     if refused:
@@ -1712,6 +2005,9 @@ def oracle(case, trace):
         def hit(clause, site, **kw):
             viol.append(dict(clause="C10/" + clause, signature="C10/%s/%s" % (clause, site), step=step, op=op, **kw))
 
+        for ex in tr.get("extra", ()):
+            hit("registry-exact", "copy-in-other-font/" + ex["site"], **ex)
+            return viol
         # (1) no two objects share an identifier; (2) registry == identifiers in use
         for t, s in enumerate(tr["after"]):
             seen = {}
